@@ -94,12 +94,12 @@ def gen_op(rng, small=False):
 
 
 def gen_case(rng, index, tier):
-    if rng.random() < (0.08 if tier == 'thorough' else 0.05):
+    if rng.random() < (0.08 if tier == 'thorough' else 0.04):
         ops = [gen_op(rng, small=True) for _ in range(rng.choice([1, 1, 2]))]
         for op in ops:
             if op['t'] == 'iter':
                 op['m'] = min(op['m'], 3)
-        return dict(mode='killsweep', ops=ops)
+        return dict(mode='killsweep', ops=ops, budget_s=60 if tier == 'thorough' else 15)
     if rng.random() < 0.4:
         op = gen_op(rng, small=rng.random() < (0.5 if tier == 'thorough' else 0.8))
         while op.get('f') == 'f_fails':
@@ -137,9 +137,25 @@ def gen_case(rng, index, tier):
                 c['delay'] = d
             work = rng.choice([3, 5, 9])
         return dict(mode='history', epochs=epochs, sched=sched, faults=[], func_fail_at=rng.choice([[], [1], [1], [1, 2], [2]]), gran='sync', work=work)
+    if rng.random() < 0.12:
+        # one function called with every member of a class of arguments that are EQUAL for Python but are different values (other type, other
+        # sign of zero), all in one process, in a seeded order, then again by a fresh process
+        cls = rng.choice([[0, 0.0, -0.0, False], [1, 1.0, True]])
+        f = rng.choice(['f_scalar', 'f_scalar', 'f_kw'])
+        mk = (lambda a: dict(t='call', f='f_scalar', args=[a], kw={})) if f == 'f_scalar' else (lambda a: dict(t='call', f='f_kw', args=[1], kw={'b': a}))
+        epochs = []
+        for e in range(rng.choice([1, 2])):
+            callers = []
+            for c in range(rng.choice([1, 1, 2])):
+                order = [mk(a) for a in cls]
+                rng.shuffle(order)
+                callers.append(dict(ops=order[:rng.choice([2, 3, 4])], io=None))
+            epochs.append(dict(callers=callers, pre=[]))
+        from . import c16
+        return dict(mode='history', epochs=epochs, sched=c16.gen_sched(rng), faults=[], func_fail_at=[], gran='sync')
     # a small pool of operations so that callers collide on keys
     pool = [gen_op(rng, small=rng.random() < 0.9) for _ in range(rng.choice([1, 2, 2, 3]))]
-    twin = None
+    twin = twin2 = None
     if rng.random() < 0.6:
         # a near-collision: same function / recursion, one argument changed (keys must differ, results must not leak)
         v = copy.deepcopy(rng.choice(pool))
@@ -170,6 +186,19 @@ def gen_case(rng, index, tier):
             v['args'][-1] = v['args'][-1] + 1
         pool.append(v)
         twin = v
+        if v['t'] == 'call' and v['f'] == 'f_scalar' and rng.random() < 0.7:
+            # a second twin: all pairs among int / float / bool / signed zero that are equal for Python should meet
+            w = copy.deepcopy(v)
+            x = w['args'][0] if w['args'] else w['kw'].get('x', 1)
+            alts = [a for a in (int(x), float(x), (bool(x) if x in (0, 1) else float(x) + 0.0), (-0.0 if x == 0 else float(x))) if core.canon(a) != core.canon(x)]
+            if alts:
+                y = rng.choice(alts)
+                if w['args']:
+                    w['args'][0] = y
+                else:
+                    w['kw']['x'] = y
+                pool.append(w)
+                twin2 = w
     for v in list(pool):
         if v['t'] == 'iter' and rng.random() < 0.35:
             w = copy.deepcopy(v)
@@ -220,7 +249,7 @@ def gen_case(rng, index, tier):
         # calls must not leak from one to the other)
         same = [o for o in pool if o is not twin and o['t'] == 'call' and o['f'] == twin['f']]
         if same:
-            pair = [copy.deepcopy(rng.choice(same)), copy.deepcopy(twin)]
+            pair = [copy.deepcopy(rng.choice(same)), copy.deepcopy(twin)] + ([copy.deepcopy(twin2)] if twin2 is not None else [])
             rng.shuffle(pair)
             c = rng.choice(rng.choice(epochs)['callers'])
             c['ops'] = pair + c['ops'][:1]
@@ -567,7 +596,7 @@ def run_killsweep(case):
     t0 = _time.monotonic()
     complete = True
     for n in range(1, min(n1, 120) + 1):
-        if _time.monotonic() - t0 > 40:
+        if _time.monotonic() - t0 > case.get('budget_s', 15):
             complete = False   # wall budget of a sweep (slow machine): the rest of the crash points is left to other cases
             break
         c = copy.deepcopy(base)
